@@ -117,7 +117,10 @@ def cases(draw):
         calls.append((0, f["name"], ", ".join("1" for _ in range(f["npar"])), f["has_ret"]))
     order = draw(st.permutations(list(range(len(calls)))))
     calls = [calls[i] for i in order]
-    return {"units": [list(u) for u in units], "model": model, "calls": [list(c) for c in calls],
+    # the order in which the files are handed over (the mapping's key order) is not the order in which the main file
+    # imports them in half of the cases; the main file need not come first either
+    file_order = list(draw(st.permutations(list(range(len(units)))))) if draw(st.booleans()) else None
+    return {"units": [list(u) for u in units], "model": model, "calls": [list(c) for c in calls], "file_order": file_order,
             "opts": VECS[draw(st.integers(0, len(VECS) - 1))], "env_seeds": [draw(st.integers(0, 2**31 - 1))]}
 
 
@@ -204,9 +207,9 @@ def render(case, with_mainblocks=True, with_unused=True):
     main.append("    yield_()")
     merged.append("    yield_()")
     A[""] = "\n".join(main) + "\n"
-    ordered = {"": A[""]}
-    for (uname, alias) in units[1:]:
-        ordered[uname] = A[uname]
+    ordered = {}
+    for ui in (case.get("file_order") or range(len(units))):
+        ordered[units[ui][0]] = A[units[ui][0]]
     return ordered, "\n".join(merged) + "\n"
 
 
